@@ -30,7 +30,7 @@ const Q_FIELDS: &[(&str, &[&str])] = &[
     ("U", &[]),
 ];
 const M_FIELDS: &[(&str, &[&str])] = &[("Mutation", &["inc", "m", "mn", "minn"]), ("A", &["a", "n", "onn", "ln"])];
-const S_FIELDS: &[(&str, &[&str])] = &[("Subscription", &["ev", "evn", "evnn"]), ("A", &["a", "n", "onn", "o", "l"])];
+const S_FIELDS: &[(&str, &[&str])] = &[("Subscription", &["ev", "evn", "evnn", "evonn"]), ("A", &["a", "n", "onn", "o", "l"])];
 
 struct Cnt {
     not_doc: AtomicU64,
